@@ -159,3 +159,112 @@ Proof.
   split; [unfold bce_fwd, bshape; repeat (split; [assumption|]); assumption|]. split; reflexivity.
 Qed.
 End BceStructure.
+
+Section BceOwn.
+Context {A : Type} {SA : Scalar A}.
+Notation T := (tensor A).
+Notation heap := (@heap A).
+Variables (eps ome : A).
+
+Lemma bce_own_wf (h : heap) p t name
+  (a0 a1 a2 a3 a4 b0 b1 b2 b3 b4 lpv k1 k2 sAv one2 d1 d2 t2v e1 e2 y2v ly2v f1 f2 sBv g1 g2 lv lnv lossv : T) :
+  rules_own h -> wf_heap h -> p < length h -> t < length h ->
+  let nodes := bce_nodes eps ome (length h) p t true name
+                 a0 a1 a2 a3 a4 b0 b1 b2 b3 b4 lpv k1 k2 sAv one2 d1 d2 t2v e1 e2 y2v ly2v f1 f2 sBv g1 g2 lv lnv lossv in
+  rules_own (h ++ nodes) /\ wf_heap (h ++ nodes).
+Proof.
+  intros Ho Hw Hp Ht nodes. apply own_wf_ext; [exact Ho|exact Hw|]. intros k nd e Hn He.
+  do 30 (destruct k as [|k]; [cbn [nth_error nodes bce_nodes] in Hn; inversion Hn; subst nd; cbn [nedges xnode arithEdges] in He;
+    repeat (destruct He as [<-|He]; [cbn [fst snd rule_y]; split; lia|]); destruct He|]).
+  destruct k; discriminate.
+Qed.
+End BceOwn.
+
+Local Open Scope R_scope.
+
+Section Bce.
+Variables (thr : R) (draw : bool -> nat -> R).
+Local Hint Extern 0 (Scalar R) => exact (R_scalar thr draw) : typeclass_instances.
+Notation T := (tensor R).
+Notation heap := (@heap R).
+Notation rule := (@rule R).
+Notation idseal := (fun (_ : option nat) (g : T) => g).
+Notation c0 := (@cst R (R_scalar thr draw) 0 0).
+Notation c1 := (@cst R (R_scalar thr draw) 1 0).
+Notation cm1 := (@cst R (R_scalar thr draw) (-1) 0).
+Variables (eps ome : R).
+
+(* element-wise reading of the thirty forward values *)
+Lemma bce_fwd_isT N (pv tv : T)
+  (a0 a1 a2 a3 a4 b0 b1 b2 b3 b4 lpv k1 k2 sAv one2 d1 d2 t2v e1 e2 y2v ly2v f1 f2 sBv g1 g2 lv lnv lossv : T) :
+  wf pv -> wf tv -> dims pv = [N] -> dims tv = [N] ->
+  bce_fwd eps ome pv tv a0 a1 a2 a3 a4 b0 b1 b2 b3 b4 lpv k1 k2 sAv one2 d1 d2 t2v e1 e2 y2v ly2v f1 f2 sBv g1 g2 lv lnv lossv ->
+  let P := elt pv in let Tt := elt tv in
+  let A0 := fun i => Rpow (Tt i) c0 in
+  let A4 := fun i => Rmax (c0 * A0 i) (Rmin (Tt i) (c1 * A0 i)) in
+  let B0 := fun i => Rpow (P i) c0 in
+  let B1 := fun i => eps * B0 i in let B2 := fun i => ome * B0 i in
+  let B3 := fun i => Rmin (P i) (B2 i) in let B4 := fun i => Rmax (B1 i) (B3 i) in
+  let O2 := fun i => Rpow (B4 i) c0 in
+  exists FA1 FA2 FA3 FLp FsA FLy FsB FL FLn,
+  isT [N] A0 a0 /\ isT [N] FA1 a1 /\ isT [N] FA2 a2 /\ isT [N] FA3 a3 /\ isT [N] A4 a4 /\
+  isT [N] B0 b0 /\ isT [N] B1 b1 /\ isT [N] B2 b2 /\ isT [N] B3 b3 /\ isT [N] B4 b4 /\
+  isT [N] FLp lpv /\ isT [N] A4 k1 /\ isT [N] FLp k2 /\ isT [N] FsA sAv /\
+  isT [N] O2 one2 /\ isT [N] O2 d1 /\ isT [N] A4 d2 /\ isT [N] (fun i => O2 i - A4 i) t2v /\
+  isT [N] O2 e1 /\ isT [N] B4 e2 /\ isT [N] (fun i => O2 i - B4 i) y2v /\
+  isT [N] FLy ly2v /\ isT [N] (fun i => O2 i - A4 i) f1 /\ isT [N] FLy f2 /\ isT [N] FsB sBv /\
+  isT [N] FsA g1 /\ isT [N] FsB g2 /\ isT [N] FL lv /\ isT [N] FLn lnv /\
+  dims lossv = [] /\ wf lossv.
+Proof.
+  intros Wp Wt Edp Edt Hf P Tt A0 A4 B0 B1 B2 B3 B4 O2.
+  destruct Hf as (Fa0 & Fa1 & Fa2 & Fa3 & Fa4 & Fb0 & Fb1 & Fb2 & Fb3 & Fb4 & Flp & Fk1 & Fk2 & FsA & Fone2 & Fd1 & Fd2 & Ft2
+                  & Fe1 & Fe2 & Fy2 & Fly2 & Ff1 & Ff2 & FsB & Fg1 & Fg2 & Fl & Fln & Floss).
+  assert (Ttv : isT [N] Tt tv) by (rewrite <- Edt; apply isT_self, Wt).
+  assert (Tpv : isT [N] P pv) by (rewrite <- Edp; apply isT_self, Wp).
+  pose proof (un_isT thr draw _ _ _ _ _ Ttv Fa0) as Ta0.
+  pose proof (un_isT thr draw _ _ _ _ _ Ta0 Fa1) as Ta1.
+  pose proof (un_isT thr draw _ _ _ _ _ Ta0 Fa2) as Ta2.
+  pose proof (same_isT thr draw _ _ _ _ _ _ _ Ttv Ta2 Fa3) as Ta3.
+  pose proof (same_isT thr draw _ _ _ _ _ _ _ Ta1 Ta3 Fa4) as Ta4.
+  pose proof (un_isT thr draw _ _ _ _ _ Tpv Fb0) as Tb0.
+  pose proof (un_isT thr draw _ _ _ _ _ Tb0 Fb1) as Tb1.
+  pose proof (un_isT thr draw _ _ _ _ _ Tb0 Fb2) as Tb2.
+  pose proof (same_isT thr draw _ _ _ _ _ _ _ Tpv Tb2 Fb3) as Tb3.
+  pose proof (same_isT thr draw _ _ _ _ _ _ _ Tb1 Tb3 Fb4) as Tb4.
+  pose proof (un_isT thr draw _ _ _ _ _ Tb4 Flp) as Tlp.
+  assert (ES : forall (x u : T) fx fu, isT [N] fx x -> isT [N] fu u -> bshape x u = map Z.of_nat [N]).
+  { intros x u fx fu (Dx & _) (Du & _). unfold bshape. rewrite Dx, Du, targetBroadcastDims_same. reflexivity. }
+  rewrite (ES _ _ _ _ Ta4 Tlp) in Fk1, Fk2.
+  pose proof (bcast_same_isT _ _ _ _ Ta4 Fk1) as Tk1. pose proof (bcast_same_isT _ _ _ _ Tlp Fk2) as Tk2.
+  pose proof (apply2_isT thr draw BiMul _ _ _ _ _ _ Tk1 Tk2 FsA) as TsA.
+  pose proof (un_isT thr draw _ _ _ _ _ Tb4 Fone2) as Tone2.
+  rewrite (ES _ _ _ _ Tone2 Ta4) in Fd1, Fd2.
+  pose proof (bcast_same_isT _ _ _ _ Tone2 Fd1) as Td1. pose proof (bcast_same_isT _ _ _ _ Ta4 Fd2) as Td2.
+  pose proof (apply2_isT thr draw BiSub _ _ _ _ _ _ Td1 Td2 Ft2) as Tt2.
+  rewrite (ES _ _ _ _ Tone2 Tb4) in Fe1, Fe2.
+  pose proof (bcast_same_isT _ _ _ _ Tone2 Fe1) as Te1. pose proof (bcast_same_isT _ _ _ _ Tb4 Fe2) as Te2.
+  pose proof (apply2_isT thr draw BiSub _ _ _ _ _ _ Te1 Te2 Fy2) as Ty2.
+  pose proof (un_isT thr draw _ _ _ _ _ Ty2 Fly2) as Tly2.
+  rewrite (ES _ _ _ _ Tt2 Tly2) in Ff1, Ff2.
+  pose proof (bcast_same_isT _ _ _ _ Tt2 Ff1) as Tf1. pose proof (bcast_same_isT _ _ _ _ Tly2 Ff2) as Tf2.
+  pose proof (apply2_isT thr draw BiMul _ _ _ _ _ _ Tf1 Tf2 FsB) as TsB.
+  rewrite (ES _ _ _ _ TsA TsB) in Fg1, Fg2.
+  pose proof (bcast_same_isT _ _ _ _ TsA Fg1) as Tg1. pose proof (bcast_same_isT _ _ _ _ TsB Fg2) as Tg2.
+  pose proof (apply2_isT thr draw BiAdd _ _ _ _ _ _ Tg1 Tg2 Fl) as Tl.
+  pose proof (un_isT thr draw _ _ _ _ _ Tl Fln) as Tln.
+  destruct (along_elt thr draw RdMean lnv 0 (proj1 (proj2 Tln))) as (lv' & Elv & Dlv & Wlv & _).
+  { rewrite (proj1 Tln). cbn [length]. lia. }
+  change (Z.of_nat 0) with 0%Z in Elv. assert (lv' = lossv) by congruence. subst lv'. clear Elv.
+  rewrite (proj1 Tln) in Dlv. change (squeezeDims 0 [N]) with (@nil nat) in Dlv.
+  do 9 eexists.
+  split; [exact Ta0|]. split; [exact Ta1|]. split; [exact Ta2|]. split; [exact Ta3|]. split; [exact Ta4|].
+  split; [exact Tb0|]. split; [exact Tb1|]. split; [exact Tb2|]. split; [exact Tb3|]. split; [exact Tb4|].
+  split; [exact Tlp|]. split; [exact Tk1|]. split; [exact Tk2|]. split; [exact TsA|].
+  split; [exact Tone2|]. split; [exact Td1|]. split; [exact Td2|]. split; [exact Tt2|].
+  split; [exact Te1|]. split; [exact Te2|]. split; [exact Ty2|].
+  split; [exact Tly2|]. split; [exact Tf1|]. split; [exact Tf2|]. split; [exact TsB|].
+  split; [exact Tg1|]. split; [exact Tg2|]. split; [exact Tl|]. split; [exact Tln|].
+  split; [exact Dlv|exact Wlv].
+Qed.
+
+End Bce.
